@@ -9,7 +9,7 @@ EXPLANATION = ("L1 reply senders are owned only by the driver's two routing maps
                "on a channel is propagated with `?`, matched into an Err return or (finish only) logged - never unwrapped, never retried (the stream's stepping functions are evaluated from the values of the stream state "
                "in which their one referencing shim reaches the call, so a branch on an excluded state is not an answer to a closed channel); "
                "L4 the request send (with `?`) precedes every await in the operation issue point; L5 the Unbind arm shuts the socket down "
-               "and closes the sink before acknowledging, and the acknowledgement is sent for every non-Single operation; L6 the one-operation driver (StartTLS set-up) hands the connection back only on paths that have established that no reply is owed; L7 the transport wrapper's AsyncRead / AsyncWrite methods each delegate, per variant, to the same method of the wrapped stream (shutdown reaches the socket of every transport kind); L9 on every path of the request arm on which the operation is Unbind the driver loop is left, so the reply senders of operations still waiting are dropped. Not decided: "
+               "and closes the sink before acknowledging, and the acknowledgement is sent for every non-Single operation; L6 the one-operation driver (StartTLS set-up) hands the connection back only on paths that have established that no reply is owed: the flag such a path tests is shown, by induction over the arms' enumerated paths, to become true only where a reply was sent on the sender taken out of the result map under the decoded ID; L7 the transport wrapper's AsyncRead / AsyncWrite methods each delegate, per variant, to the same method of the wrapped stream (shutdown reaches the socket of every transport kind); L9 on every path of the request arm on which the operation is Unbind the driver loop is left, so the reply senders of operations still waiting are dropped. Not decided: "
                "liveness itself (tokio wakes waiters; a stalled write eventually fails; select! fairness).")
 TRUSTED = ['dropping a tokio Sender wakes and fails its receiver', 'tokio select!/scheduler fairness']
 UNDECIDED = ['liveness under the scheduler', 'fault injection at every byte boundary (dynamic notion)']
